@@ -213,6 +213,13 @@ def check_request(app, template, query, ajax, viols, stats, env_kw=None, label='
             return expect
         canary_attrs = [a for a in p.attr_problems if CANARY in (a[1] or '') or CANARY in (a[2] or '')]
         raw_echo = [c for c in CANARIES if c in num and c in results_seg]
+        # any markup-significant character of the submitted text together with its neighbours, found verbatim
+        squeezed = ''.join(ch for ch in num if not ch.isspace())
+        for i, ch in enumerate(squeezed):
+            if ch in '<>&"\'' and 0 < i < len(squeezed) - 1 and squeezed[i - 1].isalnum() and squeezed[i + 1].isalnum():
+                frag = squeezed[i - 1:i + 2]
+                if frag in results_seg:
+                    raw_echo.append(frag)
         if canary_attrs or raw_echo or any(CANARY in t for t in p.tags):
             add(viols, 'C18|html|markup-injected', 'query %r: the submitted text reaches the results list unescaped (raw %r, attributes %r)' % (
                 query[:160], raw_echo[:2], canary_attrs[:2]), w)
@@ -247,7 +254,9 @@ def req_work(shard, tier, viols, stats, counters, samples):
     queries = []
     for name in shard['modules']:
         nums = C.corpus(name, limit=4 if tier == 'quick' else 20, rng=rng) + C.synth_valid(name, 8 if tier == 'quick' else 60, rng)
-        for v in nums:
+        # valid numbers that themselves contain markup-significant characters (e.g. company names with &)
+        specials = [v for v in C.corpus(name) if any(ch in v for ch in '<>&"\'')][:4]
+        for v in nums + specials:
             queries.append(('valid:' + name, 'number=' + quote(v)))
         for v in nums[:2]:
             for can in CANARIES + ['%%(%s)s' % CANARY]:
